@@ -244,6 +244,8 @@ impl<K: Copy + Ord, V> IndexedPriorityQueue<K, V> {
         requires total_order::<K>(), old(self).wf(),
         ensures
             final(self).wf(),
+            // epochs are never reused: the counter only moves forward, and only in insert              (C20 non-aliasing keys)
+            final(self).next_epoch == old(self).next_epoch,                                           //@ #epochs-never-reused
             old(self).heap@.len() == 0 ==> r is None && (forall|s: int| !old(self).dom(s)) && final(self).view_eq_except(old(self), -1),
             old(self).heap@.len() > 0 ==> r is Some && (exists|s: int| #![trigger old(self).is_min(s)] old(self).is_min(s)
                     && old(self).entry(s) == (old(self).key_of(s), r.unwrap().1) && old(self).key_of(s).key == r.unwrap().0
@@ -294,6 +296,7 @@ impl<K: Copy + Ord, V> IndexedPriorityQueue<K, V> {
         proof {
             if last_item.slab_idx != top_slab_idx {
                 Self::lemma_remove_done(old(self), &mid, self, top_slab_idx as int, last_item);
+                self.lemma_placed_epoch(&mid, last_item);
             }
         }
         //@]
@@ -347,6 +350,8 @@ impl<K: Copy + Ord, V> IndexedPriorityQueue<K, V> {
         requires total_order::<K>(), old(self).wf(),
         ensures
             final(self).wf(),
+            // epochs are never reused: a key extracted once can never match a later entry           (C20 non-aliasing keys)
+            final(self).next_epoch == old(self).next_epoch,                                           //@ #epochs-never-reused
             ({ let s = insert_key.slab_idx as int;
                let valid = old(self).dom(s) && old(self).key_of(s).epoch == insert_key.epoch;
                &&& (valid ==> r == Some((old(self).key_of(s).key, old(self).slab@[s].val()))
@@ -419,6 +424,7 @@ impl<K: Copy + Ord, V> IndexedPriorityQueue<K, V> {
         proof {
             if last_item.slab_idx != slab_idx {
                 Self::lemma_remove_done(old(self), &mid, self, slab_idx as int, last_item);
+                self.lemma_placed_epoch(&mid, last_item);
             }
         }
         //@]
@@ -803,6 +809,10 @@ impl<K: Copy + Ord, V> IndexedPriorityQueue<K, V> {
         &&& self.first_free_node == old.first_free_node
         &&& self.next_epoch == old.next_epoch
     }
+    pub proof fn lemma_placed_epoch(&self, old: &Self, item: Item<K>)
+        requires self.placed(old, item)
+        ensures self.next_epoch == old.next_epoch
+    { reveal(IndexedPriorityQueue::placed); }
     /// `post` is `pre` after `heap[to] = heap[from]; slab[heap[from].slab_idx].heap_idx = to`
     pub open spec fn moved(pre: &Self, post: &Self, from: int, to: int) -> bool {
         let cs = pre.heap@[from].slab_idx as int;
